@@ -16,7 +16,10 @@ INV_OF = {
     "C05": {"DestOrder", "NoDupWrite", "WriteDerived"},
     "C06": {"AckedBeforeTeardown", "NoHalfHandled", "StoredIsLastAcked", "TornDownOnce", "NoHang",
             "TeardownMatchesOpen", "AckPrefix"},
-    "C07": {"DlqOnce", "DlqSourceOrder", "DlqBeforeAck", "DlqCarriesOriginal", "DlqDecision", "DlqFailNoAck", "DlqStops"},
+    # (HandledBeforeStored: "never lost" - the stored position is the durable form of the acknowledgment; it must not pass a
+    #  rejected record whose dead-letter write failed, whether or not the plugin was still told)
+    "C07": {"DlqOnce", "DlqSourceOrder", "DlqBeforeAck", "DlqCarriesOriginal", "DlqDecision", "DlqFailNoAck", "DlqStops",
+            "HandledBeforeStored"},
     "C08": {"ExactlyOne", "WriteDerived", "NoEarlyAck", "DlqOnce", "DlqOriginal", "PositionImmutable", "AckPrefix",
             "NoDupWrite", "DestOrder"},
     "C13": {"OneConfigPerRecord", "SwitchAtBoundary", "OnlyRequestedConfig", "FailedOpenKeepsOld", "AppliedIsInForce",
